@@ -626,3 +626,85 @@ def determinism_family(run, replay):
                           "threads > 1)",
                      assumptions=["dates and scratch directory names written into log files are masked", "absence of order dependence at a site "
                                   "the model does not describe rests on the repetitions (new process each time)"])
+
+
+# ------------------------------------------------------------------------------------------------
+# C01 (and the Newick part of C02): Newick token machine
+
+NEWICK_MODEL_CFG = """SPECIFICATION Spec
+CONSTANTS
+  MaxToks = %d
+  Emit = TRUE
+INVARIANTS Total RoundTrip
+ACTION_CONSTRAINT EmitTransition
+VIEW StateView
+CHECK_DEADLOCK FALSE
+"""
+
+NEWICK_TRACE_CFG = """SPECIFICATION Spec
+CONSTANT PROPS = {%s}
+POSTCONDITION Accepted
+CHECK_DEADLOCK FALSE
+"""
+
+
+def newick_model(run, prop, maxtoks):
+    import models
+    out = vk.run_model(run, "Newick-%d" % maxtoks, "Newick.tla", NEWICK_MODEL_CFG % maxtoks, workers=vk.NCPU, heap="8g")
+    cases_path, n = models.emit_cases(run, prop, [out])
+    models.replay_cases(run, prop, cases_path, n, "nw-replay", "TraceNewick.tla", NEWICK_TRACE_CFG % ('"%s"' % prop), per_shard=400)
+    run.extra["model_bounds"] = dict(max_tokens=maxtoks, alphabet=14)
+
+
+@pipeline("C01")
+def newick_family(run, replay):
+    run.build_harness()
+    cfg = NEWICK_TRACE_CFG % '"C01"'
+    if replay:
+        with open(replay) as f:
+            hdr = json.loads(f.readline())
+        run.replay_of = replay
+        p = os.path.join(run.work, "replay.ndjson")
+        if "model_case" in hdr:
+            cp = os.path.join(run.work, "cases-replay.ndjson")
+            with open(cp, "w") as f:
+                f.write(json.dumps(hdr["model_case"]) + "\n")
+            vk.run_driver(run, ["nw-replay", "--prop", "C01", "--cases", cp, "--out", p], p)
+        else:
+            parts = hdr.get("case", "").split("-")
+            seed, k = int(parts[1][1:]), int(parts[2][1:])
+            maxtips = 40 if hdr.get("tier", "quick") == "quick" else 120
+            vk.run_driver(run, ["nw", "--seed", str(seed), "--from", str(k), "--to", str(k + 1), "--maxtips", str(maxtips), "--out", p], p)
+        r = vk.validate_trace(run, p, "TraceNewick.tla", cfg)
+        collect(run, [r])
+        run.traces = 1
+        run.samples += vk.sample_events(r["path"], 1)
+        return vk.finish(run, rule="replay of one recorded case on the current /repo")
+    newick_model(run, "C01", 7 if run.tier == "quick" else 9)
+    ncases, maxtips = (1600, 40) if run.tier == "quick" else (40000, 120)
+    shards = vk.NCPU
+    per = math.ceil(ncases / shards)
+
+    def job(i):
+        def f():
+            path = os.path.join(run.work, "nw-%d.ndjson" % i)
+            s = vk.run_driver(run, ["nw", "--seed", str(run.seed), "--from", str(i * per), "--to", str(min(ncases, (i + 1) * per)),
+                                    "--maxtips", str(maxtips), "--out", path], path)
+            r = vk.validate_trace(run, path, "TraceNewick.tla", cfg, heap="4g")
+            r["summary"] = s
+            return r
+        return f
+    res = vk.parallel([job(i) for i in range(shards)])
+    collect(run, res)
+    run.traces += sum(r["summary"].get("events", 0) for r in res)
+    run.samples += vk.sample_events(res[0]["path"], 1, maxlen=4000)
+    return vk.finish(run,
+                     rule="model: the Newick parser as a machine fed one token at a time (Newick.tla), every token of a 14-token alphabet in "
+                          "every state up to the bound, invariant RoundTrip (every accepted tree of the domain survives Write then Parse and "
+                          "writes identically again); every transition is concretised to text (with and without blanks) and given to the real "
+                          "parser, every accepted in-domain tree is built through the API and written by the real writer; real code: random "
+                          "decorated trees (up to 200 / 600 tips, multifurcations, inner names or supports with p-values, node and branch "
+                          "comments, hard float64 values incl. subnormals and 1.8e308) written, parsed and written again; TLC checks writer "
+                          "tokens = Write(D), parser result = Parse(tokens), parsed tree = D and identical second text",
+                     assumptions=["numeric values are symbols recognised bit-exactly by the harness (decimal formatting itself is stdlib)",
+                                  "tip names that look numeric are not generated by the random driver (the model alphabet covers them)"])
